@@ -318,6 +318,12 @@ func (c *Config) validate() error {
 	// previously the same parameter.
 	if c.MaxCommittedSizePerReady == 0 {
 		c.MaxCommittedSizePerReady = c.MaxSizePerMsg
+		if c.MaxCommittedSizePerReady == 0 {
+			// MaxSizePerMsg == 0 means "at most one entry per message". The
+			// equivalent for the apply budget is the smallest positive size
+			// (one entry at a time); a zero budget would admit no entry at all.
+			c.MaxCommittedSizePerReady = 1
+		}
 	}
 
 	if c.MaxInflightMsgs <= 0 {
